@@ -8,6 +8,7 @@ import Nsq.Model.ToFileDisc
 import Nsq.Model.ToFileMain
 import Nsq.Model.ToNsqLoop   -- relay sub-builder (C20 round 6): to_nsq main loop
 import Nsq.Model.RelayOpts   -- relay sub-builder (C20 round 6): option surface of nsq_to_http / nsq_to_nsq
+import Nsq.Model.RelayRedirect   -- tools2 (audit round 7, C3): nsq_to_http through the http.Client of main()
 /-! Driver for engine E8 (tools): one operation per input line, one canonical answer line out.
 
 `tf …`  nsq_to_file router model (stateful: conf / pre / events / tree)
@@ -19,6 +20,7 @@ import Nsq.Model.RelayOpts   -- relay sub-builder (C20 round 6): option surface 
 `td …`  nsq_to_file TopicDiscoverer (stateful: new / upd / tick-err / hup / term)
 `lp …`  to_nsq main loop (throttle / EOF / Stop) under a given schedule      [relay block]
 `opt …` relay option surface: hdr / req / args / pass / wl / topic / hmark / nmark [relay block]
+`rd …`  nsq_to_http wire level: one message through HandleMessage + http.Client (redirects)  [tools2 block]
 -/
 open Nsq Nsq.Line
 
@@ -122,6 +124,9 @@ def stepLine (d : E8.D) (line : String) : String × E8.D :=
   | "lp" :: ws => (Nsq.Model.ToNsqLoop.driverLine ws, d)
   | "opt" :: ws => (Nsq.Model.RelayOpts.driverLine ws, d)
   -- ---- end of relay block ----
+  -- ---- tools2 block (audit round 7, C3) ----
+  | "rd" :: _ => (Nsq.Model.RelayRedirect.driverLine (words line), d)
+  -- ---- end of tools2 block ----
   | _ => ("bad-op", d)
 
 partial def loop (h : IO.FS.Stream) (out : IO.FS.Stream) (d : E8.D) : IO Unit := do
